@@ -78,8 +78,8 @@ type Parlia struct {
 	ChainID    uint64
 	Epoch      uint64
 	Latest     PHeader
-	Validators []common.Address       // current set, ascending
-	Pending    []common.Address       // announced at the last epoch block
+	Validators []common.Address          // current set, ascending
+	Pending    []common.Address          // announced at the last epoch block
 	History    map[uint64]common.Address // every accepted sealer by height (strict reading)
 	Recents    map[uint64]common.Address // the bounded window real Parlia keeps
 }
